@@ -234,6 +234,36 @@ impl Report {
         let known = load_known_findings(&self.property);
         let known_sigs: BTreeSet<String> = known.iter().map(|k| k.signature.clone()).collect();
 
+        // result of the interpreter / sanitizer leg that ./check ran before this process
+        if let Ok(path) = std::env::var("VERIF_LEG_FILE") {
+            match std::fs::read_to_string(&path).ok().and_then(|t| serde_json::from_str::<Value>(&t).ok()) {
+                Some(leg) => {
+                    let status = leg.get("status").and_then(|s| s.as_str()).unwrap_or("").to_string();
+                    let why = leg.get("why").and_then(|s| s.as_str()).unwrap_or("").to_string();
+                    for key in ["undefined_behaviour_reports", "leg_violations"] {
+                        for r in leg.get(key).and_then(|a| a.as_array()).cloned().unwrap_or_default() {
+                            let line = r.as_str().unwrap_or("").to_string();
+                            let class = if key == "leg_violations" {
+                                line.split("signature=").nth(1).and_then(|x| x.split_whitespace().next()).unwrap_or("oracle").to_string()
+                            } else {
+                                line.trim_start_matches("error: ").split(':').next().unwrap_or("report").to_lowercase().replace(' ', "-")
+                            };
+                            self.violation(format!("{}:miri:{}", self.property, class), format!("Miri leg: {}", line), json!({"leg": leg}));
+                        }
+                    }
+                    if status == "violation" && self.violations.is_empty() {
+                        self.violation(format!("{}:miri:unclassified", self.property), "Miri leg reported a violation".to_string(), json!({"leg": leg}));
+                    }
+                    if status != "ok" && status != "violation" {
+                        self.inconclusive(format!("Miri leg: {} {}", status, why));
+                    }
+                    self.count("miri_leg_evaluations", leg.get("evaluations").and_then(|e| e.as_u64()).unwrap_or(0));
+                    self.extra.insert("sanitizer_leg".into(), leg);
+                }
+                None => self.inconclusive(format!("the result file of the Miri leg ({}) is missing or unreadable", path)),
+            }
+        }
+
         for (name, min) in self.floors.clone() {
             let got = self.counter(&name);
             if got < min {
